@@ -638,7 +638,7 @@ static void run_script(const string &script)
 		static const std::set<string> cfg_cmds = {"free", "errfunc", "searchpath", "parse_buf", "parse_fp", "parse_file", "setint",
 			"setfloat", "setbool", "setstr", "setlist", "addlist", "setmulti", "osetmulti", "setopt", "setcomment", "addtsec",
 			"rmsec", "rmnsec", "rmtsec", "getopt", "getnopt", "getsec", "getnsec", "gettsec", "size", "getint", "getfloat",
-			"getbool", "getstr", "getcomment", "title", "setvalidate", "setvalidate2", "printfunc", "filter", "dump", "print",
+			"getbool", "getstr", "getcomment", "title", "setvalidate", "setvalidate2", "printfunc", "filter", "dump", "print", "roundtrip",
 			"findfile"};
 		static const std::set<string> opt_cmds = {"osetint", "osetfloat", "osetbool", "osetstr", "osetcomment", "ormnsec", "ormtsec",
 			"ogetnsec", "ogettsec", "oprintfunc", "odump", "oprint", "nprintvar"};
@@ -1040,6 +1040,15 @@ static void run_script(const string &script)
 			int rc;
 			string s = (t.size() > 2) ? print_to_string(1, hcfg(N(1)), NULL, (int)N(2), &rc) : print_to_string(0, hcfg(N(1)), NULL, 0, &rc);
 			o += ",\"rc\":" + jnum(rc) + ",\"text\":" + jbytes(s);
+		} else if (c == "roundtrip") {
+			// roundtrip src dst : print src to memory, parse that text into dst
+			int rc;
+			string s1 = print_to_string(0, hcfg(N(1)), NULL, 0, &rc);
+			cfg_t *dst = hcfg(N(2));
+			apply_errno();
+			int prc = dst ? cfg_parse_buf(dst, s1.c_str()) : -9;
+			saved_errno = errno;
+			o += ",\"rc\":" + jnum(prc) + ",\"text\":" + jbytes(s1);
 		} else if (c == "oprint") {
 			int rc;
 			string s = (t.size() > 2) ? print_to_string(3, NULL, hopt(N(1)), (int)N(2), &rc) : print_to_string(2, NULL, hopt(N(1)), 0, &rc);
